@@ -280,6 +280,12 @@ func Execute(c Case, keepTrace bool, ch chooser) (res Result) {
 				return res
 			}
 		}
+		for r, o := range slots[i].out {
+			if later, same := o.Recheck(); !same {
+				res.Violation = viol("purity", "result-changed-after-return", fmt.Sprintf("the result task %d repetition %d returned read %s when it was returned and reads %s after the other runs finished", i, r+1, core.Truncate(o.Canon(), 400), core.Truncate(later, 400)))
+				return res
+			}
+		}
 		if len(slots[i].out) != t.Reps {
 			res.HarnessErr = fmt.Sprintf("task %d ran %d of %d repetitions", i, len(slots[i].out), t.Reps)
 			return res
